@@ -10,6 +10,7 @@ from .drivers import common
 
 SCHED_OPS = {"add_system", "remove_system", "complete", "execute_systems"}
 SPACE_OPS = {"place", "move", "move_to", "leave_space"}
+POP_OPS = {"join", "leave", "attach", "detach", "register", "deregister"}
 
 
 def record(repo=None, timeout=900):
@@ -45,10 +46,13 @@ def record(repo=None, timeout=900):
 
 
 def validate(ctx, family, events):
-    """family: 'sched' | 'space'.  Returns (accepted, skipped, rejected)."""
+    """family: 'sched' | 'space' | 'pop'.  Returns (accepted, skipped, rejected)."""
     if family == "sched":
         evs = [e for e in events if e["op"] in SCHED_OPS]
         module, cfg = "Scheduler_Suite.tla", "Scheduler_Suite.cfg"
+    elif family == "pop":
+        evs = [e for e in events if e["op"] in POP_OPS]
+        module, cfg = "Population_Suite.tla", "Population_Suite.cfg"
     else:
         evs = [e for e in events if e["op"] in SPACE_OPS]
         module, cfg = "World_Suite.tla", "World_Suite.cfg"
@@ -71,6 +75,19 @@ def validate(ctx, family, events):
         else:
             rej += 1
             ctx._violation(module, cfg, None, tr, v, source, "the recorded operation is not a step of the specification from its recorded pre-state", None)
+    if family == "pop":
+        # binding control: a recorded join whose logged post-listing loses an entry must be rejected
+        import copy
+        cand = [tr[0] for v, tr in zip(verdicts, traces)
+                if v.accepted and not any("skipped" in d for d in v.devsets) and tr[0]["op"] == "join" and tr[0]["out"] == "ok"
+                and tr[0]["post"].get("pools") and tr[0]["post"]["pools"][0][1]]
+        if cand:
+            bad = copy.deepcopy(cand[0])
+            bad["post"]["pools"][0][1] = bad["post"]["pools"][0][1][:-1]
+            v = judge_mod.judge(module, cfg, [[bad]], chunk=10)[0]
+            if v.accepted:
+                raise tlc.MachineryError("tamper control: a recorded join with a listing entry removed was accepted")
+            ctx.controls.append("suite traces (population): a recorded join with one listing entry removed from the logged post-state is rejected")
     ctx.traces_validated += acc
     ctx.events += acc
     ctx.evaluations += len(uniq)
